@@ -42,43 +42,45 @@ const vfNever = time.Duration(1<<63-1) - 24*time.Hour
 type vfC17Scenario struct {
 	name string
 	subs [][]vfPut
+	// defaultOnly: every scheduling alternative costs one deviation (bound 0 = the default schedule alone)
+	defaultOnly bool
 }
 
 func vfC17Scenarios(thorough bool) []vfC17Scenario {
 	ms := time.Millisecond
 	p := func(sleep, off time.Duration) vfPut { return vfPut{sleep, off, 0} }
 	sc := []vfC17Scenario{
-		{"1x2 increasing", [][]vfPut{{p(0, 5*ms), p(0, 10*ms)}}},
-		{"1x2 decreasing", [][]vfPut{{p(0, 10*ms), p(0, 5*ms)}}},
-		{"1x2 equal", [][]vfPut{{p(0, 5*ms), p(0, 5*ms)}}},
-		{"1x2 past,now", [][]vfPut{{p(0, -10*ms), p(0, 0)}}},
-		{"1x2 nearly equal (+1ns)", [][]vfPut{{p(0, 5*ms), p(0, 5*ms+1)}}},
-		{"2x1 nearly equal (+500us)", [][]vfPut{{p(0, 5*ms)}, {p(0, 5*ms+500*time.Microsecond)}}},
-		{"1x2 far,near", [][]vfPut{{p(0, vfFar), p(0, 5*ms)}}},
-		{"1x2 near,far", [][]vfPut{{p(0, 5*ms), p(0, vfFar)}}},
-		{"1x2 near,then at its expiry", [][]vfPut{{p(0, 5*ms), p(5*ms, 0)}}},
-		{"2x1 near,nearer", [][]vfPut{{p(0, 10*ms)}, {p(0, 5*ms)}}},
-		{"2x1 equal", [][]vfPut{{p(0, 5*ms)}, {p(0, 5*ms)}}},
-		{"2x1 far,near", [][]vfPut{{p(0, vfFar)}, {p(0, 5*ms)}}},
-		{"2x1 now,past", [][]vfPut{{p(0, 0)}, {p(0, -10*ms)}}},
-		{"2x1 near / arrival at expiry", [][]vfPut{{p(0, 5*ms)}, {p(5*ms, 5*ms)}}},
-		{"2x1 near / past at expiry", [][]vfPut{{p(0, 5*ms)}, {p(5*ms, -1*ms)}}},
-		{"2x2 crossing", [][]vfPut{{p(0, 10*ms), p(0, 5*ms)}, {p(0, 5*ms), p(0, vfFar)}}},
+		{"1x2 increasing", [][]vfPut{{p(0, 5*ms), p(0, 10*ms)}}, false},
+		{"1x2 decreasing", [][]vfPut{{p(0, 10*ms), p(0, 5*ms)}}, false},
+		{"1x2 equal", [][]vfPut{{p(0, 5*ms), p(0, 5*ms)}}, false},
+		{"1x2 past,now", [][]vfPut{{p(0, -10*ms), p(0, 0)}}, false},
+		{"1x2 nearly equal (+1ns)", [][]vfPut{{p(0, 5*ms), p(0, 5*ms+1)}}, false},
+		{"2x1 nearly equal (+500us)", [][]vfPut{{p(0, 5*ms)}, {p(0, 5*ms+500*time.Microsecond)}}, false},
+		{"1x2 far,near", [][]vfPut{{p(0, vfFar), p(0, 5*ms)}}, false},
+		{"1x2 near,far", [][]vfPut{{p(0, 5*ms), p(0, vfFar)}}, false},
+		{"1x2 near,then at its expiry", [][]vfPut{{p(0, 5*ms), p(5*ms, 0)}}, false},
+		{"2x1 near,nearer", [][]vfPut{{p(0, 10*ms)}, {p(0, 5*ms)}}, false},
+		{"2x1 equal", [][]vfPut{{p(0, 5*ms)}, {p(0, 5*ms)}}, false},
+		{"2x1 far,near", [][]vfPut{{p(0, vfFar)}, {p(0, 5*ms)}}, false},
+		{"2x1 now,past", [][]vfPut{{p(0, 0)}, {p(0, -10*ms)}}, false},
+		{"2x1 near / arrival at expiry", [][]vfPut{{p(0, 5*ms)}, {p(5*ms, 5*ms)}}, false},
+		{"2x1 near / past at expiry", [][]vfPut{{p(0, 5*ms)}, {p(5*ms, -1*ms)}}, false},
+		{"2x2 crossing", [][]vfPut{{p(0, 10*ms), p(0, 5*ms)}, {p(0, 5*ms), p(0, vfFar)}}, false},
 		// a task function that takes time: deadlines pass and new tasks arrive while the worker is busy
-		{"busy worker: timer fires and a task arrives meanwhile", [][]vfPut{{p(0, 5*ms), p(0, 10*ms)}, {{6 * ms, -1 * ms, 8 * ms}, {1 * ms, 30 * ms, 0}}}},
-		{"busy worker: two deadlines pass meanwhile", [][]vfPut{{{0, 5 * ms, 12 * ms}, p(0, 8*ms), p(0, 10*ms), p(0, 40*ms)}}},
+		{"busy worker: timer fires and a task arrives meanwhile", [][]vfPut{{p(0, 5*ms), p(0, 10*ms)}, {{6 * ms, -1 * ms, 8 * ms}, {1 * ms, 30 * ms, 0}}}, false},
+		{"busy worker: two deadlines pass meanwhile", [][]vfPut{{{0, 5 * ms, 12 * ms}, p(0, 8*ms), p(0, 10*ms), p(0, 40*ms)}}, false},
 		// six pending tasks with zig-zag deadlines (the heap's shape matters from six on)
-		{"1x6 zig-zag", [][]vfPut{{p(0, 3*ms), p(0, 15*ms), p(0, 5*ms), p(0, 7*ms), p(0, 17*ms), p(0, 19*ms)}}},
-		{"1x2 never,near", [][]vfPut{{p(0, vfNever), p(0, 5*ms)}}},
-		{"1x3 near,never,far", [][]vfPut{{p(0, 5*ms), p(0, vfNever), p(0, vfFar)}}},
-		{"2x1 never,near", [][]vfPut{{p(0, vfNever)}, {p(0, 5*ms)}}},
+		{"1x6 zig-zag", [][]vfPut{{p(0, 3*ms), p(0, 15*ms), p(0, 5*ms), p(0, 7*ms), p(0, 17*ms), p(0, 19*ms)}}, false},
+		{"1x2 never,near", [][]vfPut{{p(0, vfNever), p(0, 5*ms)}}, false},
+		{"1x3 near,never,far", [][]vfPut{{p(0, 5*ms), p(0, vfNever), p(0, vfFar)}}, false},
+		{"2x1 never,near", [][]vfPut{{p(0, vfNever)}, {p(0, 5*ms)}}, false},
 	}
 	if thorough {
 		sc = append(sc,
-			vfC17Scenario{"3x1 decreasing", [][]vfPut{{p(0, 10*ms)}, {p(0, 5*ms)}, {p(0, 0)}}},
-			vfC17Scenario{"3x1 far,near,near", [][]vfPut{{p(0, vfFar)}, {p(0, 5*ms)}, {p(0, 5*ms)}}},
-			vfC17Scenario{"3x1 arrivals at expiry", [][]vfPut{{p(0, 5*ms)}, {p(5*ms, 0)}, {p(5*ms, 5*ms)}}},
-			vfC17Scenario{"2x2 near,later / at expiry", [][]vfPut{{p(0, 5*ms), p(5*ms, 5*ms)}, {p(5*ms, -1*ms), p(0, 1*ms)}}},
+			vfC17Scenario{"3x1 decreasing", [][]vfPut{{p(0, 10*ms)}, {p(0, 5*ms)}, {p(0, 0)}}, false},
+			vfC17Scenario{"3x1 far,near,near", [][]vfPut{{p(0, vfFar)}, {p(0, 5*ms)}, {p(0, 5*ms)}}, false},
+			vfC17Scenario{"3x1 arrivals at expiry", [][]vfPut{{p(0, 5*ms)}, {p(5*ms, 0)}, {p(5*ms, 5*ms)}}, false},
+			vfC17Scenario{"2x2 near,later / at expiry", [][]vfPut{{p(0, 5*ms), p(5*ms, 5*ms)}, {p(5*ms, -1*ms), p(0, 1*ms)}}, false},
 		)
 	}
 	return sc
@@ -118,6 +120,12 @@ func vfC17Run(sc vfC17Scenario, parallel int, async bool, early int8) explore.Ru
 		earlyFires := 0
 		cfg := vrt.Config{PreemptCost: 1, SwitchCost: 0, SelectCost: 0, TimerEarlyCost: early, EarlyWindow: 50 * time.Millisecond,
 			AsyncTimerChan: async, Horizon: 3 * time.Hour, MaxSteps: 20000}
+		for _, sub := range sc.subs {
+			cfg.MaxSteps += 40 * len(sub)
+		}
+		if sc.defaultOnly {
+			cfg.SwitchCost, cfg.SelectCost = 1, 1
+		}
 		out := hx.RunVrt(e, cfg, func() {
 			vfResetGlobals()
 			var ts *TimedSched
@@ -232,6 +240,7 @@ func vfC17(c *hx.Ctx) {
 	cfgs := []cfg{{1, false, 1}, {2, false, 1}, {1, true, 1}, {2, true, -1}}
 	c.ByUnit = true
 	vfC17Perms(c)
+	vfC17Bulk(c)
 	total := (len(scs)*len(cfgs) + c.Of - 1) / max(c.Of, 1)
 	left := time.Until(c.Deadline)
 	for _, sc := range scs {
@@ -277,7 +286,7 @@ func vfC17Perms(c *hx.Ctx) {
 			for _, k := range perms[which] {
 				puts = append(puts, vfPut{0, time.Duration(3+2*k) * time.Millisecond, 0})
 			}
-			sc = vfC17Scenario{fmt.Sprintf("order %v", perms[which]), [][]vfPut{puts}}
+			sc = vfC17Scenario{fmt.Sprintf("order %v", perms[which]), [][]vfPut{puts}, false}
 			v := vfC17Run(sc, 1, async, -1)(e)
 			if v.Violation != "" {
 				v.Violation = fmt.Sprintf("deadlines arriving in the order %v (x2 ms + 3 ms): %s", perms[which], v.Violation)
@@ -289,6 +298,70 @@ func vfC17Perms(c *hx.Ctx) {
 		saved := hx.NoCache
 		hx.NoCache = true // the order is chosen before the execution starts: it is not part of the happens-before fingerprint
 		c.Explore(fmt.Sprintf("every arrival order of %d pending tasks/workers=1/asynctimerchan=%v", n, async), map[string]any{"tasks": n, "orders": len(perms), "workers": 1, "asynctimerchan": async}, 0, run)
+		hx.NoCache = saved
+	}
+}
+
+// vfC17Bulk: MANY tasks pending at once (every count 2^k-1, 2^k, 2^k+1 up to 4097, where a batch limit or a chunked hand-over
+// would sit), in four shapes: all falling due at the same instant; already due behind a busy worker; in two waves; with
+// distinct increasing deadlines. The count and the shape are environment choices; the schedule is the default one (one
+// submitter puts everything before stage 1 wakes up, which is the worst case for a hand-over in one piece).
+func vfC17Bulk(c *hx.Ctx) {
+	ms := time.Millisecond
+	var counts []int
+	for k := 4; k <= hx.Pick(c, 12, 13); k++ {
+		counts = append(counts, 1<<k-1, 1<<k, 1<<k+1)
+	}
+	shapes := []string{"equal deadlines", "due behind a busy worker", "two waves", "increasing deadlines"}
+	for _, async := range []bool{false, true} {
+		async := async
+		run := func(e *explore.Exec) explore.Verdict {
+			which := e.Choose(vrt.KEnv, len(counts)*len(shapes), nil, "number of pending tasks and their shape")
+			n, shape := counts[which/len(shapes)], which%len(shapes)
+			var subs [][]vfPut
+			switch shape {
+			case 0:
+				var puts []vfPut
+				for i := 0; i < n; i++ {
+					puts = append(puts, vfPut{0, 5 * ms, 0})
+				}
+				subs = [][]vfPut{puts}
+			case 1:
+				puts := []vfPut{{0, -1 * ms, 20 * ms}, {1 * ms, 0, 0}}
+				for i := 1; i < n; i++ {
+					puts = append(puts, vfPut{0, time.Duration(i%3-1) * ms, 0})
+				}
+				subs = [][]vfPut{puts}
+			case 2:
+				var puts []vfPut
+				for i := 0; i < n; i++ {
+					puts = append(puts, vfPut{0, 5 * ms, 0})
+				}
+				puts = append(puts, vfPut{2 * ms, 3 * ms, 0})
+				for i := 1; i < n; i++ {
+					puts = append(puts, vfPut{0, 3 * ms, 0})
+				}
+				subs = [][]vfPut{puts}
+			case 3:
+				var puts []vfPut
+				for i := 0; i < n; i++ {
+					puts = append(puts, vfPut{0, 5*ms + time.Duration(i)*time.Microsecond, 0})
+				}
+				subs = [][]vfPut{puts}
+			}
+			v := vfC17Run(vfC17Scenario{shapes[shape], subs, true}, 1, async, -1)(e)
+			if v.Violation != "" {
+				v.Violation = fmt.Sprintf("%d tasks, %s: %s", n, shapes[shape], v.Violation)
+				v.Signature += ":many-pending-tasks"
+			}
+			v.Outcome = fmt.Sprintf("%d/%s: %x", n, shapes[shape], explore.HashString(v.Outcome))
+			return v
+		}
+		c.UnitBudget = 60 * time.Second
+		saved := hx.NoCache
+		hx.NoCache = true
+		c.Explore(fmt.Sprintf("many pending tasks (%d..%d)/workers=1/asynctimerchan=%v", counts[0], counts[len(counts)-1], async),
+			map[string]any{"counts": counts, "shapes": shapes, "workers": 1, "asynctimerchan": async}, 0, run)
 		hx.NoCache = saved
 	}
 }
